@@ -47,6 +47,9 @@ def run(ctx, rep):
     control_tables(prog, rep, "libtw2_net::protocol7")
     ordering(prog, rep, "libtw2_net::protocol")
     ordering(prog, rep, "libtw2_net::protocol7")
+    reader_size_limit(prog, rep, "R4-reader-size-limit", "libtw2_net::protocol")
+    reader_size_limit(prog, rep, "R4-reader-size-limit", "libtw2_net::protocol7")
+    close_reason_clamp(prog, rep)
 
 
 def header_pair(prog, rep, mod, up, pk):
@@ -358,3 +361,103 @@ def ordering(prog, rep, mod):
                                 ok = True
         rep.ob(rule, "%s | token stripped after decompression" % ver, ok,
                "the token is split from the end of the (decompressed) payload", r.loc())
+
+
+def _ceval(e):
+    """value of an expression over constants (named constants arrive evaluated)"""
+    if e[0] == "c" and isinstance(e[1], int):
+        return e[1]
+    if e[0] == "bin" and e[1] in ("Add", "Sub", "Mul"):
+        a, b = _ceval(e[2]), _ceval(e[3])
+        if a is None or b is None:
+            return None
+        return a + b if e[1] == "Add" else a - b if e[1] == "Sub" else a * b
+    return None
+
+
+def reader_size_limit(prog, rep, rule, mod):
+    """The reader's payload-size guard (Err(Compression) for over-long payloads): it is applied to the payload *after*
+    decompression, its constant is MAX_PACKETSIZE - HEADER_SIZE, and that is at least the largest payload the
+    connection layer can emit (chunk area + vital chunk header + token), so everything the writer produces is accepted
+    and nothing longer than a datagram's payload is."""
+    tag = mod.split("::")[-1]
+    b = prog.one(mod + "::Packet::read_impl")
+    ir = IR(b)
+    c = lambda n: prog.constv(mod + "::" + n)
+    MAXP, MAXPKT, HDR, HV = c("MAX_PAYLOAD"), c("MAX_PACKETSIZE"), c("HEADER_SIZE"), c("CHUNK_HEADER_SIZE_VITAL")
+    TOK = c("TOKEN_SIZE") if tag == "protocol" else 0
+    guards = []
+    for bi in sorted(b.live):
+        t = b.blocks[bi]["term"]
+        if t["k"] != "switch":
+            continue
+        e = ir.term_operand(bi, t["o"])
+        neg = False
+        while e[0] == "un" and e[1] == "Not":
+            e, neg = e[2], not neg
+        if e[0] != "bin" or e[1] not in ("Gt", "Ge", "Lt", "Le"):
+            continue
+        lhs, rhs = e[2], e[3]
+        kval = _ceval(rhs)
+        if lhs[0] != "len" or kval is None:
+            continue
+        # does one side of the switch build PacketReadError::Compression right away?
+        leads = False
+        for s_ in b.succ[bi]:
+            for st in b.blocks[s_]["st"]:
+                if st["k"] == "assign" and st["r"]["k"] == "agg" and st["r"].get("variant") == "Compression":
+                    leads = True
+        if leads:
+            guards.append((bi, e[1], lhs[1], kval))
+    rep.floor(rule, len(guards), 1, "%s: size guard returning Err(Compression)" % tag)
+    for bi, op, what, k in guards:
+        limit = k if op == "Gt" else k - 1 if op == "Ge" else None
+        need = MAXP + HV + TOK
+        okk = limit is not None and limit == MAXPKT - HDR and limit >= need
+        rep.ob(rule, "%s | limit" % tag, okk,
+               "payloads up to %s bytes are accepted: equals MAX_PACKETSIZE - HEADER_SIZE = %d and covers the largest payload the connection "
+               "layer builds (%d + %d + %d = %d)" % (limit, MAXPKT - HDR, MAXP, HV, TOK, need) if okk else
+               "the reader accepts payloads up to %s bytes; the writer emits up to %d (MAX_PAYLOAD + vital chunk header + token) and a datagram holds %d"
+               % (limit, need, MAXPKT - HDR), b.loc(b.blocks[bi]["term"].get("ln")))
+        # the tested slice is the payload after decompression: the local has a definition that comes out of Packet::decompress
+        x = what
+        while isinstance(x, tuple) and x and x[0] in ("ref", "deref", "unsize"):
+            x = x[2] if x[0] == "ref" else x[1]
+        post = False
+        if x[0] == "var":
+            for (dbi, dsi, kind, node) in ir.defs.get(x[1], []):
+                de = ir.rvalue(node["r"], (dbi, dsi)) if kind == "assign" else ir.call_expr(dbi, node)
+                if any(isinstance(y, tuple) and y and y[0] == "call" and y[1].endswith("::Packet::decompress") for y in walk(de)):
+                    post = True
+        rep.ob(rule, "%s | tested after decompression" % tag, post,
+               "the guard tests the payload that comes out of the decompression step" if post else
+               "the guard tests `%s`, which is not the decompressed payload: a compressed packet can expand beyond the limit" % show(strip_sites(what)),
+               b.loc(b.blocks[bi]["term"].get("ln")))
+
+
+def close_reason_clamp(prog, rep):
+    """R5: a Close reason of up to CTRLMSG_CLOSE_REASON_LENGTH (127, the protocol's limit) bytes is read back whole:
+    both readers clamp the reason at exactly that constant (sibling agreement 0.6 / 0.7)"""
+    rule = "R5-close-reason-clamp"
+    vals = {}
+    for mod in ("libtw2_net::protocol", "libtw2_net::protocol7"):
+        tag = mod.split("::")[-1]
+        b = prog.one(mod + "::Packet::read_impl")
+        ir = IR(b)
+        lim = prog.constv(mod + "::CTRLMSG_CLOSE_REASON_LENGTH")
+        found = []
+        for bi, t in b.calls():
+            if (t.get("callee") or "") in ("std::cmp::min",):
+                e = ir.call_expr(bi, t)
+                ks = [_ceval(a) for a in e[2]]
+                ks = [k for k in ks if k is not None]
+                if ks:
+                    found.append((bi, ks[0], t.get("ln")))
+        rep.floor(rule, len(found), 1, "%s: cmp::min(nul, <limit>) in read_impl" % tag)
+        for bi, k, ln in found:
+            vals[tag] = k
+            rep.ob(rule, "%s | clamp" % tag, k == lim == 127,
+                   "the reason is cut at %d bytes = CTRLMSG_CLOSE_REASON_LENGTH" % k if k == lim == 127 else
+                   "the reason is cut at %s bytes but CTRLMSG_CLOSE_REASON_LENGTH is %s: a maximal reason is truncated (and warned about)" % (k, lim), b.loc(ln))
+    if len(vals) == 2:
+        rep.ob(rule, "0.6 and 0.7 agree", len(set(vals.values())) == 1, "both readers clamp at %s" % sorted(set(vals.values())))
